@@ -1,6 +1,7 @@
 SPECIFICATION Spec
 CONSTANTS
   LB = 2
+  Stride = 1
   N = 4
 INVARIANTS OkConv OkAdd OkSub OkNeg OkOvf OkCmp OkMul OkShift OkBits OkBfe
 CHECK_DEADLOCK FALSE
